@@ -481,6 +481,35 @@ let handle (r : reader) : unit =
         @ (if wf then [] else ["S_NOT_WF"]) in
       out_s "OK"; out_bool valid; out_bool pts;
       out_s (" " ^ (if flags = [] then "-" else String.concat "," flags))
+  | "F2H" ->
+      (* F2H n b* -> per pattern: hash, or R when rejected (Rust: panic) *)
+      let bs = next_list r next_n in
+      out_s "OK";
+      List.iter (fun b -> match freq2hash b with Some h -> out_n h | None -> out_s " R") bs
+  | "H2F" ->
+      let hs = next_list r next_n in
+      out_s "OK";
+      List.iter (fun h -> match hash2freq h with Some b -> out_n b | None -> out_s " R") hs
+  | "NARROW" ->
+      (* NARROW w n h* -> from_u64_idx *)
+      let w = next_n r in
+      let hs = next_list r next_n in
+      out_s "OK";
+      List.iter (fun h -> out_n (from_u64_idx w h)) hs
+  | "MOCV" ->
+      let q = next_qty r in
+      let w = next_n r in
+      let d = next_n r in
+      let hs = next_list r next_n in
+      out_s "OK"; out_n d;
+      out_ranges (moc_of_values q w d hs)
+  | "MOCR" ->
+      let q = next_qty r in
+      let w = next_n r in
+      let d = next_n r in
+      let rs = next_ranges r in
+      out_s "OK"; out_n d;
+      out_ranges (moc_of_ranges q w d rs)
   | "EXPR" ->
       let q = next_qty r in
       let w = next_n r in
